@@ -396,6 +396,9 @@ class Interp:
             conv = LIB.get("builtins." + f.name)
             if conv is not None:
                 return conv.impl(self, list(args), dict(kwargs))
+        impl = METHODS.get((self.kind_of(f), "__call__"))
+        if impl is not None:
+            return impl(self, f, list(args), dict(kwargs))
         raise Unsupported(f"call of {type(f).__name__} {getattr(f, 'name', '')}")
 
     def instantiate(self, cls: RepoClass, args, kwargs):
